@@ -502,6 +502,11 @@ func (cx *Checker) ReplayAll(obls []*core.Obl) {
 			}
 			hangy = append(hangy, s)
 		} else {
+			if len(normal) >= 900 {
+				// a broken tree can refute tens of thousands of obligations: 900 are replayed, the others keep their model
+				byID[s.ID].Replay = &core.ReplayResult{Confirmed: false, Output: "not replayed: the replay budget (900 inputs per run) is used up; the decoded input is in the witness"}
+				continue
+			}
 			normal = append(normal, s)
 		}
 	}
@@ -519,7 +524,7 @@ func (cx *Checker) ReplayAll(obls []*core.Obl) {
 		go func(bi int, batch []*ReplaySpec) {
 			defer wg.Done()
 			defer func() { <-sem }()
-			dir := filepath.Join(cx.env.Verif, "replays", cx.prop, fmt.Sprintf("run%02d", bi))
+			dir := filepath.Join(cx.env.Out, "replays", cx.prop, fmt.Sprintf("run%02d", bi))
 			outs, cmdline, output, err := runReplays(cx.env, dir, batch)
 			for _, s := range batch {
 				o := byID[s.ID]
@@ -566,7 +571,7 @@ func Replay(env *core.Env, p *load.Program, prop string, o *core.Obl) {
 	if o.Witness == "" {
 		o.Witness = spec.Witness()
 	}
-	dir := filepath.Join(env.Verif, "replays", prop, "single_"+sanitizeName(o.Name))
+	dir := filepath.Join(env.Out, "replays", prop, "single_"+sanitizeName(o.Name))
 	outs, cmdline, output, err := runReplays(env, dir, []*ReplaySpec{&spec})
 	r := outs[spec.ID]
 	if r == nil {
